@@ -277,13 +277,17 @@ def trace_dynamo(rng: random.Random, variant: int, modes: Tuple[str, ...] = ("al
         pgrad = {k: v.grad.clone() for k, v in mod.named_parameters() if v.grad is not None}
         tm.zero_grad(set_to_none=True)
         tx = x.clone()
-        tout = tm(tx)
+        tout = tm(x=tx) if variant % 2 else tm(tx)      # odd variants pass the (not yet grad-requiring) input BY KEYWORD
+        bwd_err = None
         if mode != "none":
-            tout.backward()
+            try:
+                tout.backward()
+            except Exception as ex:      # the plain module's backward worked: tracking changed the gradients it produces
+                bwd_err = f"{type(ex).__name__}: {str(ex)[:100]}"
         same_out = torch.equal(tout, pout)
         same_grad = True
         if mode != "none":
-            same_grad = tx.grad is not None and torch.equal(tx.grad, px.grad) and all(torch.equal(v.grad, pgrad[k]) for k, v in tm.named_parameters() if k in pgrad)
+            same_grad = bwd_err is None and tx.grad is not None and torch.equal(tx.grad, px.grad) and all(torch.equal(v.grad, pgrad[k]) for k, v in tm.named_parameters() if k in pgrad)
         # independent capture on the traced graph itself (un-instrumented execution of the same fx graph)
         g = tm.scales_graph()
         gm = fx.GraphModule(tm, g)
